@@ -52,6 +52,13 @@ class Rec:
     def __concretize__(self, model):
         return repr(self)
 
+    # records are opaque: min()/max() over two records (chord.evaluate's "seg") keeps the first one
+    def __lt__(self, o):
+        return False
+
+    def __gt__(self, o):
+        return False
+
 
 def make_stub(fn, arity, log):
     sig = inspect.signature(fn)
